@@ -6,7 +6,7 @@
 //! PUBLIC API:
 //!   `combine(topo, src, dst, ups, cores, downs) -> BTreeMap<HopSeq, RPath>`
 //!   `HopSeq = Vec<(AsIdx, ingress ifid, egress ifid)>` in travel order (ingress 0 at src, egress 0 at dst)
-//!   `RPath { hops, kinds, links, mtu, expiries, .. }`, `RPath::latest_expiry()`, `interfaces(&HopSeq)`,
+//!   `RPath { hops, kinds, links, mtu, expiries, seg_counts, shapes }`, `RPath::latest_expiry()`, `interfaces(&HopSeq)`,
 //!   `PathKind` (+ `name()`).
 //!
 //! Rules (a path uses at most one up, one core, one down segment, in this order):
@@ -73,6 +73,9 @@ pub struct RPath {
     pub expiries: Vec<u32>,
     /// segment count of the derivations (1..=3), sorted, deduplicated
     pub seg_counts: Vec<usize>,
+    /// for every derivation the number of hop fields taken from each segment, in travel order
+    /// (= the SegLen values of the data-plane path that derivation produces)
+    pub shapes: BTreeSet<Vec<usize>>,
 }
 impl RPath {
     /// keep-latest rule: among derivations of the same interface sequence the one expiring last.
@@ -100,11 +103,13 @@ pub fn interfaces(h: &HopSeq) -> Vec<(AsIdx, u16)> {
 struct Piece {
     hops: HopSeq,
     exp: Vec<u32>,
+    /// hop fields per segment
+    segs: Vec<usize>,
 }
 
 /// Up-segment travelled from its leaf up to entry `i` (against construction direction).
 fn up_piece(u: &RSegment, i: usize, peer: Option<&RPeer>) -> Piece {
-    let mut p = Piece { hops: vec![], exp: vec![] };
+    let mut p = Piece { hops: vec![], exp: vec![], segs: vec![u.entries.len() - i] };
     for idx in (i..u.entries.len()).rev() {
         let e = &u.entries[idx];
         if idx == i {
@@ -128,7 +133,7 @@ fn up_piece(u: &RSegment, i: usize, peer: Option<&RPeer>) -> Piece {
 
 /// Down-segment travelled from entry `j` to its leaf (in construction direction).
 fn down_piece(d: &RSegment, j: usize, peer: Option<&RPeer>) -> Piece {
-    let mut p = Piece { hops: vec![], exp: vec![] };
+    let mut p = Piece { hops: vec![], exp: vec![], segs: vec![d.entries.len() - j] };
     for idx in j..d.entries.len() {
         let e = &d.entries[idx];
         if idx == j {
@@ -152,7 +157,7 @@ fn down_piece(d: &RSegment, j: usize, peer: Option<&RPeer>) -> Piece {
 
 /// Whole core segment, in construction direction (`forward`) or against it.
 fn core_piece(c: &RSegment, forward: bool) -> Piece {
-    let mut p = Piece { hops: vec![], exp: vec![] };
+    let mut p = Piece { hops: vec![], exp: vec![], segs: vec![c.entries.len()] };
     let n = c.entries.len();
     for k in 0..n {
         let e = &c.entries[if forward { k } else { n - 1 - k }];
@@ -174,7 +179,9 @@ fn join_xover(a: &Piece, b: &Piece) -> Option<Piece> {
     hops.extend_from_slice(&b.hops[1..]);
     let mut exp = a.exp.clone();
     exp.extend_from_slice(&b.exp);
-    Some(Piece { hops, exp })
+    let mut segs = a.segs.clone();
+    segs.extend_from_slice(&b.segs);
+    Some(Piece { hops, exp, segs })
 }
 
 /// Join over a peering link: plain concatenation.
@@ -183,7 +190,9 @@ fn join_peer(a: &Piece, b: &Piece) -> Piece {
     hops.extend_from_slice(&b.hops);
     let mut exp = a.exp.clone();
     exp.extend_from_slice(&b.exp);
-    Piece { hops, exp }
+    let mut segs = a.segs.clone();
+    segs.extend_from_slice(&b.segs);
+    Piece { hops, exp, segs }
 }
 
 /// MTU of a hop sequence from the topology: every AS on it and every link between consecutive hops.
@@ -227,7 +236,8 @@ pub fn combine(topo: &Topo, src: AsIdx, dst: AsIdx, ups: &[&RSegment], cores: &[
         }
         let e = *p.exp.iter().min().unwrap();
         let mtu = topo_mtu(topo, hops).unwrap_or_else(|m| panic!("R-combine produced a sequence off the topology: {m}: {hops:?}"));
-        let r = out.entry(hops.clone()).or_insert_with(|| RPath { hops: hops.clone(), kinds: BTreeSet::new(), links: hops.len() - 1, mtu, expiries: vec![], seg_counts: vec![] });
+        let r = out.entry(hops.clone()).or_insert_with(|| RPath { hops: hops.clone(), kinds: BTreeSet::new(), links: hops.len() - 1, mtu, expiries: vec![], seg_counts: vec![], shapes: BTreeSet::new() });
+        r.shapes.insert(p.segs.clone());
         r.kinds.insert(kind);
         r.expiries.push(e);
         r.expiries.sort();
